@@ -269,6 +269,9 @@ struct Driver {
             if (!full || want != o.L) break;
             if (slow_us.load() && !gate_abort.load()) usleep(static_cast<useconds_t>(slow_us.load()));   // slow consumer on the harness side
         }
+        // the stream cannot be followed any further (EOF, reset, or a length we refuse to buffer): make that visible to
+        // the real sender too, so that its send() calls fail instead of blocking on a socket nobody reads
+        ::shutdown(hs, SHUT_RDWR);
         hclosed = true;
     }
 
@@ -322,7 +325,12 @@ struct Driver {
                 done = ab && ba && w;
             }
             if (done) return false;
-            if (real_ms() > deadline) return true;
+            if (real_ms() > deadline) {
+                // something that should have happened did not (this is reported through the trace); do not spend the
+                // full patience again on every later wait of this run
+                if (g_timeout_ms > 1500) g_timeout_ms = 1500;
+                return true;
+            }
             usleep(200);
         }
     }
